@@ -3,6 +3,8 @@ import MoreExec.Props.C09
 #print axioms MoreExec.Timeout.C09_exactly_once
 #print axioms MoreExec.Timeout.C09_at_deadline
 #print axioms MoreExec.Timeout.C09_sleep_invariant
+#print axioms MoreExec.Timeout.C09_outcome_kept
+#print axioms MoreExec.Timeout.C09_overdue_not_done
 #print axioms MoreExec.Timeout.K3_partition_spec
 #print axioms MoreExec.Timeout.K3_overdue_strict
 #print axioms MoreExec.Timeout.K3_model_agrees
